@@ -31,3 +31,5 @@ func init() {
 		fmt.Println(prototextString(stripped(m)))
 	}
 }
+
+var parseSettingsZero = parse.Settings{}
